@@ -8,6 +8,7 @@ import (
 	"fmt"
 	"runtime"
 	"sync"
+	"sync/atomic"
 )
 
 // Interface is a type that performs an operation on itself, returning any error.
@@ -24,6 +25,9 @@ type Processor struct {
 	threads int
 	wg      *sync.WaitGroup
 	closed  sync.Once
+
+	// exited counts the workers that have finished.
+	exited int32
 }
 
 // Return a new Processor to operate the function f over the number of threads specified taking
@@ -56,7 +60,9 @@ func NewProcessor(queue chan Operator, buffer int, threads int) (p *Processor) {
 				}
 				p.work <- struct{}{}
 				verifStep("exit-token-returned")
-				if len(p.work) == p.threads {
+				// The last worker to finish closes the results. Idle tokens
+				// cannot tell: a worker that has not started yet holds none.
+				if atomic.AddInt32(&p.exited, 1) == int32(p.threads) {
 					p.closed.Do(func() { close(p.out) })
 				}
 				p.wg.Done()
